@@ -18,11 +18,15 @@ def model_check(ctx):
     ctx.mc("GridEquiv", "MC_GridEquiv_q.cfg" if ctx.quick else "MC_GridEquiv_t.cfg", label="1-D lattices n<=4 (6), spacing d<=3 (4) units, basis + dense states: metric scale = 1, three runs equal")
     ctx.mc_negative("GridEquiv", "MC_GridEquiv_neg.cfg")    # reference spacing without the Courant division
     ctx.mc_negative("GridEquiv", "MC_GridEquiv_neg2.cfg")   # z origin of the uniform policy from the y cell count
+    ctx.mc_negative("GridEquiv", "MC_GridEquiv_neg3.cfg")   # domain-centre term added only for non-uniform grids
     ctx.assumptions += [
         "tolerance 1e-11 of the largest value of each compared array pair (the descriptions may resolve the time step / edge coordinates with different round-off)",
         "volumes have three different (even) axis lengths; slabs, sources and detectors are placed through physical coordinates on every axis "
         "(RealCoordinateConstraint, partial_real_position) in half of the scenes, through grid coordinates in the others; the resolved grid slices of every "
         "object are compared exactly, and a placement that fails under one description only is a violation",
+        "each description has its own domain centre (explicit RectilinearGrid: always off the origin; policies: `center` parameter in half of the scenes): "
+        "absolute coordinates (RealCoordinateConstraint) are translated with it, partial_real_position is relative to the domain centre; "
+        "requested object centres are exact interval centres (no ties between candidate intervals)",
         "even cell counts on every axis (QuasiUniformGrid requires them); spacings include values that are not representable with 14 decimals",
         "scenes are stepped eagerly with fdtdx.fdtd.forward.forward (record_detectors=True)",
     ]
@@ -58,7 +62,13 @@ def _scene(rng, T, real):
         slab["place"] = rng.choice(["real", "center"])
         sources[0]["place"], sources[1]["place"] = "real", "center"
         dets[0]["place"], dets[1]["place"], dets[2]["place"], dets[3]["place"] = "center", "real", "real", "center"
-    return {"shape": shape, "T": T, "res": res, "cf": 0.99, "pml": 2, "bounds": bounds, "slabs": [slab], "sources": sources, "detectors": dets}
+    # every description gets its own domain centre (the same physical scene up to a translation): the explicit
+    # RectilinearGrid is never centred on the origin, the policies use their `center` parameter in half of the scenes
+    def cen(zero):
+        return [0.0, 0.0, 0.0] if zero else [round(rng.uniform(-40, 40), 2) * res for _ in range(3)]
+
+    centers = {"uniform": cen(rng.random() < 0.5), "rect": cen(False), "quasi": cen(rng.random() < 0.5)}
+    return {"centers": centers, "shape": shape, "T": T, "res": res, "cf": 0.99, "pml": 2, "bounds": bounds, "slabs": [slab], "sources": sources, "detectors": dets}
 
 
 def gen_cases(ctx):
@@ -107,7 +117,7 @@ def observe(case):
 
     runs, dts, failed = {}, {}, {}
     for g in GRIDS:
-        sc = dict(case["scene"], grid=g)
+        sc = dict(case["scene"], grid=g, center=case["scene"]["centers"][g])
         try:
             obj, arrays, config = RS.build(sc)
         except Exception as e:   # placement refused under this description (e.g. an object pushed out of the volume)
